@@ -17,6 +17,14 @@ from hypergraph import END, FunctionNode, Graph, InterruptNode  # noqa: E402
 from hypergraph.nodes.gate import IfElseNode, RouteNode  # noqa: E402
 
 
+class _TBase:
+    pass
+
+
+TYPES = {f"T{i}": type(f"T{i}", (_TBase,), {}) for i in range(8)}
+TYPES.update({"int": int, "str": str})
+
+
 def T(x):
     """JSON value -> run-time term (lists become tuples, recursively)."""
     if isinstance(x, list):
@@ -184,7 +192,7 @@ def make_func(ctx: Ctx, spec: dict, flavour: str):
     for p, v in defaults.items():
         ns[f"_d_{p}"] = v
     for p, t in ann.items():
-        ns[f"_t_{p}"] = t
+        ns[f"_t_{p}"] = TYPES[t] if isinstance(t, str) else t
     exec(src, ns)
     fn = ns[_pyname(fid)]
     ctx.funcs[key] = fn
